@@ -27,7 +27,8 @@ Graphs == {
   [name |-> "tree3x4",  rows |-> << <<0, 1>>, <<1, 2, 3>>, <<3, 0>> >>, n |-> 4, forest |-> FALSE],   \* 6-cycle
   [name |-> "star3x5",  rows |-> << <<0, 1, 2>>, <<2, 3>>, <<2, 4>> >>, n |-> 5, forest |-> TRUE],
   [name |-> "cyc4deg1", rows |-> << <<0, 1, 2>>, <<0, 1>> >>, n |-> 3, forest |-> FALSE],              \* 4-cycle + degree-1 variable
-  [name |-> "twocomp",  rows |-> << <<0, 1>>, <<2, 3>> >>, n |-> 4, forest |-> TRUE]
+  [name |-> "twocomp",  rows |-> << <<0, 1>>, <<2, 3>> >>, n |-> 4, forest |-> TRUE],
+  [name |-> "deg1chk",  rows |-> << <<1>>, <<0, 1, 2>> >>, n |-> 3, forest |-> FALSE]                 \* a check of degree one
 }
 
 VARIABLES g, sched, st, calls, last
